@@ -344,6 +344,26 @@ def _is_name_input(module_context, names, first, last):
     return False
 
 
+def _may_keep_previous_value(name, nodes):
+    """
+    True for the `x` in `x += 1` and for assignments in an `if`, a loop or a
+    `try` of the extracted code, because those might not be executed.
+    """
+    definition = name.get_definition()
+    if definition is not None and definition.type == 'expr_stmt' \
+            and definition.children[1].type == 'operator' \
+            and definition.children[1].value != '=':
+        return True
+    node = name.parent
+    while node is not None:
+        if node.type in ('if_stmt', 'for_stmt', 'while_stmt', 'try_stmt'):
+            return True
+        if node in nodes:
+            break
+        node = node.parent
+    return False
+
+
 def _find_inputs_and_outputs(module_context, context, nodes):
     first = nodes[0].start_pos
     last = nodes[-1].end_pos
@@ -354,6 +374,12 @@ def _find_inputs_and_outputs(module_context, context, nodes):
         if name.is_definition():
             if name not in outputs:
                 outputs.append(name.value)
+            if name.value not in inputs and _may_keep_previous_value(name, nodes):
+                # The value from before the extracted code is still needed.
+                name_definitions = context.goto(name.value, first)
+                if name_definitions \
+                        and _is_name_input(module_context, name_definitions, first, last):
+                    inputs.append(name.value)
         else:
             if name.value not in inputs:
                 # As in inference, the right hand side of `x = x + 1` does
